@@ -43,6 +43,8 @@ def make_value(kind: str, size: int):  # type: ignore
         return LazyModule("lazily_imported_settings")   # an instance of a subclass of types.ModuleType
     if kind == "builtin":
         return len
+    if kind == "mwrapper":
+        return [1, 2, 3].__len__      # a method of a built-in type bound to an instance (what `x.__len__` evaluates to)
     raise ValueError(kind)
 
 
